@@ -1,5 +1,5 @@
 (* C07 — a withdrawal pays exactly what is owed, once. *)
-From VP Require Import Base Nonce Store StoreProofs Pool PoolProofs BalanceProofs Conc ConcProofs Locks LocksProofs.
+From VP Require Import Base Nonce Store StoreProofs Pool PoolProofs BalanceProofs Conc ConcProofs Locks LocksProofs Deposit DepositProofs.
 From VPgen Require Import Facts.
 
 (* executed iff settlement is enabled, the balance (deposit + credit) meets the minimum and the
@@ -79,3 +79,28 @@ Print Assumptions c07_racing_withdrawals_exclusive.
 Theorem c07_lock_entry_removal_refuted :
   holders (lrun true lst0 chain3) = [2; 3]%N /\ holders (lrun false lst0 chain3) = [2]%N.
 Proof. exact deleting_variant_refuted. Qed.
+
+(* The deposit as the service sees it in production: ContractPayment's cache in front of the
+   contract (filled on a miss from the contract's pending state, refreshed by Balance events when
+   a settlement is MINED, and — the repair of D29 — set when the settlement is submitted).  For every
+   history of deposits, earnings, forced-settlement requests, pool restarts, withdrawals (back to
+   back ones included) and minings, the wallet is never paid more than it put in and earned, and
+   an immediate repeat of a withdrawal pays nothing; with the event-only refresh of the pinned
+   code the repeat is paid the deposit again. *)
+Theorem c07_never_overpaid : forall cfg ops,
+  dc_refresh_on_settle cfg = true -> 0 <= dc_fee cfg ->
+  let s := drun cfg d0 ops in d_paid s + eff s + d_credit s <= d_in s.
+Proof. exact never_overpaid. Qed.
+Print Assumptions c07_never_overpaid.
+Theorem c07_immediate_repeat_pays_nothing : forall cfg ops,
+  dc_refresh_on_settle cfg = true -> 0 <= dc_fee cfg ->
+  let s := drun cfg d0 ops in
+  0 < snd (dstep cfg s DWithdraw) \/ (snd (dstep cfg s DWithdraw) = 0 /\ d_pending (fst (dstep cfg s DWithdraw)) <> d_pending s) ->
+  snd (dstep cfg (fst (dstep cfg s DWithdraw)) DWithdraw) = 0.
+Proof. exact repeat_pays_nothing. Qed.
+Theorem c07_stale_deposit_cache_refuted :
+  let cfg := {| dc_fee := 10; dc_min := None; dc_refresh_on_settle := false |} in
+  dpaid cfg d0 [DDeposit 1000000; DEarn 10000; DWithdraw; DWithdraw; DMine; DMine] = [0; 0; 1009990; 999990; 0; 0] /\
+  let cfg' := {| dc_fee := 10; dc_min := None; dc_refresh_on_settle := true |} in
+  dpaid cfg' d0 [DDeposit 1000000; DEarn 10000; DWithdraw; DWithdraw; DMine; DMine] = [0; 0; 1009990; 0; 0; 0].
+Proof. exact stale_cache_pays_twice. Qed.
